@@ -32,7 +32,7 @@ ASSUMPTIONS = [
 ]
 SHARDS = {"quick": 16, "thorough": 16}
 MINIMUMS = {
-    "quick": {"double_runs": 60, "scheduler_died_early": 40, "jobs_checked": 120, "coarse_phases": 9, "adoptions_observed": 4},
+    "quick": {"double_runs": 60, "scheduler_died_early": 40, "jobs_checked": 120, "coarse_phases": 15, "adoptions_observed": 4, "restarts_with_failing_job": 4},
     "thorough": {"double_runs": 1200, "scheduler_died_early": 800, "jobs_checked": 2400, "coarse_phases": 36, "adoptions_observed": 200},
 }
 TIMEOUT = {"quick": 1500, "thorough": 14400}
@@ -43,6 +43,8 @@ PLANS = {
     "chain-token": {"jobs": [{"x": 0, "tokens": [{"tok": 0, "n": 1}]}, {"x": 1, "deps": [{"on": 0, "how": "direct"}], "tokens": [{"tok": 0, "n": 1}]}], "tokens": [{"name": "c11tok", "total": 1}]},
     "chain": {"jobs": [{"x": 0}, {"x": 1, "deps": [{"on": 0, "how": "lst"}]}], "tokens": []},
     "diamond": {"jobs": [{"x": 0}, {"x": 1, "deps": [{"on": 0, "how": "direct"}]}, {"x": 2, "deps": [{"on": 0, "how": "direct"}], "cls": "TaskO"}, {"x": 3, "deps": [{"on": 1, "how": "lst"}, {"on": 2, "how": "art"}]}], "tokens": []},
+    # the job that is running when the scheduler dies fails after the restart: the re-attached process decides
+    "chain-fail": {"jobs": [{"x": 0, "mode": "raise"}, {"x": 1, "deps": [{"on": 0, "how": "direct"}]}], "tokens": [], "expect_states": {"0": "ERROR", "1": "ERROR"}, "expect_outcome": "FailedExperiment", "expect_starts": {"0": 1, "1": 0}},
     "two-token": {"jobs": [{"x": 0, "tokens": [{"tok": 0, "n": 2}]}, {"x": 1, "tokens": [{"tok": 0, "n": 1}]}, {"x": 2, "deps": [{"on": 0, "how": "direct"}], "tokens": [{"tok": 0, "n": 2}]}], "tokens": [{"name": "c11tok2", "total": 2}]},
 }
 
@@ -197,15 +199,23 @@ def double_run(ctx, planname, crash=None, phase=None, sig="SIGKILL", label=""):
             return
         r2 = case.result(h2)
         ev = enga.parse_body(case.body_log())
-        for x, msg in enga.exactly_once(ev, xs):
+        starts_expected = {int(k): v for k, v in PLANS[planname].get("expect_starts", {}).items()}
+        for x, msg in enga.exactly_once(ev, [x for x in xs if starts_expected.get(x, 1) == 1]):
             ctx.violation("body-not-exactly-once", f"after {sig} at {where}: job {x}: {msg} (log: {case.body_log()})", w)
+        for x in xs:
+            if starts_expected.get(x, 1) == 0 and any(e[0] == "start" and e[1] == x for e in ev):
+                ctx.violation("dependent-of-failed-job-ran-after-restart", f"after {sig} at {where}: job {x} depends on a job that failed but its body ran (log: {case.body_log()})", w)
         ctx.count("jobs_checked", len(xs))
         if r2 is None:
             ctx.violation("restart-fails", f"after {sig} at {where}: run 2 wrote no result", w)
             return
-        bad = {k: s for k, s in r2["states"].items() if s != "DONE"}
-        if bad or r2["outcome"] != "returned":
-            ctx.violation("restart-final-states", f"after {sig} at {where}: run 2 ended {r2['outcome']} with {r2['states']}", w)
+        want_states = PLANS[planname].get("expect_states")
+        want_outcome = PLANS[planname].get("expect_outcome", "returned")
+        bad = {k: s for k, s in r2["states"].items() if s != (want_states[k] if want_states else "DONE")}
+        if bad or r2["outcome"] != want_outcome:
+            ctx.violation("restart-final-states" + (":failing-job" if want_states else ""), f"after {sig} at {where}: run 2 ended {r2['outcome']} with {r2['states']}" + (f", expected {want_outcome} with {want_states}" if want_states else ""), w)
+        if want_states:
+            ctx.count("restarts_with_failing_job")
         # adoption: exactly one job-script start per job overall
         per = {}
         for l in case.runner_log():
@@ -263,8 +273,14 @@ def worker(ctx):
             for s in sigs:
                 cases.append((pn, n, None, s))
         for ph in ("submitted", "job0-running", "job1-running", "all-done"):
+            if pn == "chain-fail" and ph in ("job1-running", "all-done"):
+                continue  # job 1 never runs in that plan
             for s in ("SIGKILL", "SIGTERM", "SIGINT"):
                 cases.append((pn, None, ph, s))
+    if ctx.tier == "quick":
+        for ph in ("submitted", "job0-running"):
+            for s in ("SIGKILL", "SIGTERM", "SIGINT"):
+                cases.append(("chain-fail", None, ph, s))
     cases.sort(key=lambda c: (c[0], c[1] or 0, c[2] or "", c[3]))
     for k, (pn, n, ph, s) in enumerate(cases):
         if k % ctx.nshards == ctx.shard:
